@@ -6,6 +6,7 @@ import (
 	"go/types"
 	"os"
 	"path/filepath"
+	"regexp"
 	"sort"
 	"strings"
 )
@@ -152,6 +153,10 @@ func (f *g2lFn) emit() string {
 		absArgs += a + " "
 	}
 	body := strings.Join(lines, "\n")
+	f.checkJoins(body)
+	for _, l := range f.loops {
+		f.checkJoins(l)
+	}
 	typeVars := ""
 	for _, tv := range sortedVals(f.u.absTypes) {
 		typeVars += fmt.Sprintf("{%s : Type} [DecidableEq %s] [Inhabited %s] ", tv, tv, tv)
@@ -615,3 +620,50 @@ def TokRef.set (r : TokRef) (i : Int) (x : Bytes) (world : Heap) : M Heap := do
   pure { world with lines := ls }
 
 `
+
+var g2lJoinRe = regexp.MustCompile(`let (k[0-9]+) := fun ((?:\([^()]*(?:\([^()]*\))?[^()]*\) ?)+)=> \(`)
+var g2lWorldRebindRe = regexp.MustCompile(`\blet\b[^\n:=←]*\bworld\b[^\n:=←]*(:=|←)`)
+
+// checkJoins: safety net for shared continuations (`let kN := fun params => (…)`, shareK).  A continuation whose body reads
+// `world` without taking it as a parameter runs on the world of its DEFINITION; if the world is re-bound between the
+// definition and a call, the update is lost (a translator bug of exactly this kind was found by a tie proof: a store through
+// a token view was not recognised as a change of the world).  Conservative and textual: any re-binding of `world` between
+// the end of the definition and a later call refuses the function.
+func (f *g2lFn) checkJoins(text string) {
+	for _, m := range g2lJoinRe.FindAllStringSubmatchIndex(text, -1) {
+		name := text[m[2]:m[3]]
+		params := text[m[4]:m[5]]
+		open := m[1] - 1
+		depth, end := 0, -1
+		for i := open; i < len(text); i++ {
+			switch text[i] {
+			case '(':
+				depth++
+			case ')':
+				depth--
+				if depth == 0 {
+					end = i
+				}
+			}
+			if end >= 0 {
+				break
+			}
+		}
+		if end < 0 {
+			continue
+		}
+		body := text[open:end]
+		if !containsWord(body, "world") || strings.Contains(params, "(world :") {
+			continue
+		}
+		rebound := false
+		for _, line := range strings.Split(text[end:], "\n") {
+			if containsWord(line, name) && rebound {
+				f.bad(f.fd, "internal: the shared continuation %s reads the world of its definition, but the world is re-bound before it is called", name)
+			}
+			if g2lWorldRebindRe.MatchString(line) {
+				rebound = true
+			}
+		}
+	}
+}
